@@ -114,10 +114,23 @@ pub use crate::util::fast_env;
 
 struct Built { test_repo: TestRepo, settings: UserSettings, repo: Arc<ReadonlyRepo>, commits: Vec<Commit> }
 
+thread_local! {
+    /// change[i] = j < i: node i is written with the change id of node j (several commits per change id); empty: all fresh
+    static CHANGE_OF: std::cell::RefCell<Vec<usize>> = const { std::cell::RefCell::new(Vec::new()) };
+}
 fn write_node(mut_repo: &mut MutableRepo, commits: &[Commit], parents: &[usize], i: usize, salt: u64) -> Commit {
     let tree = mut_repo.store().empty_merged_tree();
     let pids = parents.iter().map(|p| commits[*p].id().clone()).collect();
-    mut_repo.new_commit(pids, tree).set_description(format!("c{i}-{salt}")).write_unwrap()
+    let same_as = CHANGE_OF.with(|c| c.borrow().get(i).copied()).filter(|j| *j < i && *j > 0);
+    let mut cb = mut_repo.new_commit(pids, tree).set_description(format!("c{i}-{salt}"));
+    if let Some(j) = same_as { cb = cb.set_change_id(commits[j].change_id().clone()); }
+    cb.write_unwrap()
+}
+fn build_with_changes(h: &Hist, change: &[usize]) -> Built {
+    CHANGE_OF.with(|c| *c.borrow_mut() = change.to_vec());
+    let r = catch(AssertUnwindSafe(|| build(h)));
+    CHANGE_OF.with(|c| c.borrow_mut().clear());
+    match r { Ok(b) => b, Err(p) => panic!("{p}") }
 }
 
 fn build(h: &Hist) -> Built {
@@ -320,6 +333,7 @@ fn c18_check(h: &Hist, qseed: u64, func: &str) -> Option<Value> {
 fn c18_run(func: &str, replay: Option<Value>, seed: u64) -> Value {
     let name = if func.is_empty() { "CompositeCommitIndex (is_ancestor / heads / common_ancestors)" } else { func };
     if let Some(inp) = replay {
+        if let Some(r) = chg_replay(&inp, "index") { return match r { Ok(Some(r)) => hit(inp, r, name), Ok(None) => none("replayed input satisfies the C18 executable contract"), Err(e) => none(&e) }; }
         let Some(h) = Hist::from_json(&inp) else { return none("replay input is not a valid C18 history") };
         let q = inp.get("qseed").and_then(|q| q.as_u64()).unwrap_or(0);
         return match c18_check(&h, q, func) { Some(r) => hit(inp, r, name), None => none("replayed input satisfies the C18 executable contract") };
@@ -339,13 +353,31 @@ fn c18_run(func: &str, replay: Option<Value>, seed: u64) -> Value {
     let mut rng = Rng::new(seed ^ 0x18);
     let t0 = std::time::Instant::now();
     let mut rnd = 0;
-    while rnd < budget(450) && t0.elapsed().as_secs_f64() < 90.0 * budget(100) as f64 / 100.0 {
+    while rnd < budget(350) && t0.elapsed().as_secs_f64() < 90.0 * budget(100) as f64 / 100.0 {
         let h = random_hist(&mut rng, 12, true);
         let q = rng.next() % 1_000_000;
         rnd += 1;
         if let Some(r) = c18_check(&h, q, func) { return hit(input(&h, q), r, name); }
     }
-    none(&format!("scope exhausted: all {cnt} histories = every DAG with <= 4 non-root commits (root never a merge parent) x every split into transactions (for 4 commits: 4 and 3+1) (+ last two transactions concurrent), all pairs is_ancestor / all candidate subsets heads / all pairs common_ancestors, in memory and reloaded; then {rnd} seeded random histories with <= 12 commits (chains, octopus merges, stacked segments 6/3/1.., concurrent operations), seed {seed}"))
+    // generation numbers, index statistics, change id -> commits (several commits per change id, hidden ones)
+    let mut chg = 0;
+    for k in 0..=3 { for p in all_dags(k) { for tx in compositions(k) {
+        let h = Hist { parents: p.clone(), tx, fork: None, reload: true, salt: 0 };
+        let n = h.n();
+        // every node in turn shares the change id of node 1; each childless node hidden in turn
+        let mut variants: Vec<(Vec<usize>, Vec<usize>)> = vec![(vec![], vec![])];
+        for i in 2..n { let mut c: Vec<usize> = (0..n).collect(); c[i] = 1; variants.push((c.clone(), vec![])); for l in 1..n { if !p.iter().any(|ps| ps.contains(&l)) { variants.push((c.clone(), vec![l])); } } }
+        for (change, hidden) in variants { chg += 1; if let Some(r) = chg_check(&h, &change, &hidden, &[], "index") { return hit(chg_input("C18chg", &h, &change, &hidden, &[]), r, name); } }
+    } } }
+    let mut chg_rnd = 0;
+    while chg_rnd < budget(120) {
+        // now and then a history spanning several 64-bit words of the index's reachability bit set, where the commits of
+        // one change are far apart
+        let (h, change, hidden) = if chg_rnd % 30 == 7 { let h = bulk_hist(&[130, 50, 15, 5], rng.below(1_000_000)); let n = h.n(); let c = (0..n).map(|i| if i > 80 && i % 5 == 2 { i - 75 } else { i }).collect(); (h, c, vec![n - 1, n - 2]) } else { chg_random(&mut rng, 14) };
+        chg_rnd += 1;
+        if let Some(r) = chg_check(&h, &change, &hidden, &[], "index") { return hit(chg_input("C18chg", &h, &change, &hidden, &[]), r, name); }
+    }
+    none(&format!("scope exhausted: generation_number / IndexStats / resolve_change_id (all commits of a change id incl. hidden, visibility flags) on {chg} exhaustive + {chg_rnd} random histories with shared change ids and hidden commits (4 of them with 200 commits); all {cnt} histories = every DAG with <= 4 non-root commits (root never a merge parent) x every split into transactions (for 4 commits: 4 and 3+1) (+ last two transactions concurrent), all pairs is_ancestor / all candidate subsets heads / all pairs common_ancestors, in memory and reloaded; then {rnd} seeded random histories with <= 12 commits (chains, octopus merges, stacked segments 6/3/1.., concurrent operations), seed {seed}"))
 }
 
 // ---------------------------------------------------------------------------------------------------------------------
@@ -514,51 +546,173 @@ fn c10_run(func: &str, replay: Option<Value>, seed: u64) -> Value {
 // ---------------------------------------------------------------------------------------------------------------------
 // C19: revset evaluation == set semantics, in index order
 // ---------------------------------------------------------------------------------------------------------------------
-/// expression AST as JSON: "all" | "none" | ["c", i] | ["|", a, b] | ["&", a, b] | ["~", a, b] | ["::x", a] | ["x::", a] | ["not", a]
+/// expression AST as JSON:
+///   atoms   "all" "none" "root" "vheads" (visible_heads()) "merges" "::" ".." | ["c", i]
+///   binary  ["|", a, b] ["&", a, b] ["~", a, b] ["..", a, b] (a..b) ["::", a, b] (a::b) ["reachable", a, b] ["coalesce", a, b, ..]
+///   unary   ["::x", a] ["x::", a] ["not", a] ["x-", a] ["x+", a] ["x..", a] ["..x", a]
+///           ["f", name, a]          name in heads roots connected fork_point merge_point present parents children
+///                                   ancestors descendants first_parent first_ancestors
+///           ["fd", name, a, "depth"] name in parents children ancestors descendants first_parent first_ancestors; depth decimal u64
+const UNARY_FNS: [&str; 12] = ["heads", "roots", "connected", "fork_point", "merge_point", "present", "parents", "children", "ancestors", "descendants", "first_parent", "first_ancestors"];
+const DEPTH_FNS: [&str; 6] = ["parents", "children", "ancestors", "descendants", "first_parent", "first_ancestors"];
+const DEPTHS: [u64; 12] = [0, 1, 2, 3, 4, (1 << 31) - 1, 1 << 31, (1 << 32) - 1, 1 << 32, (1 << 32) + 2, 1 << 63, u64::MAX - 1];
 fn ex_render(e: &Value, hex: &[String]) -> Option<String> {
-    if let Some(s) = e.as_str() { return match s { "all" => Some("all()".into()), "none" => Some("none()".into()), _ => None }; }
+    if let Some(s) = e.as_str() {
+        return Some(match s { "all" => "all()", "none" => "none()", "root" => "root()", "vheads" => "visible_heads()", "merges" => "merges()", "::" => "::", ".." => "..", _ => return None }.to_string());
+    }
     let a = e.as_array()?;
     let op = a.first()?.as_str()?;
     Some(match (op, a.len()) {
         ("c", 2) => hex.get(a[1].as_u64()? as usize)?.clone(),
         ("|", 3) | ("&", 3) | ("~", 3) => format!("({} {} {})", ex_render(&a[1], hex)?, op, ex_render(&a[2], hex)?),
+        ("..", 3) | ("::", 3) => format!("(({}){}({}))", ex_render(&a[1], hex)?, op, ex_render(&a[2], hex)?),
+        ("reachable", 3) => format!("reachable({}, {})", ex_render(&a[1], hex)?, ex_render(&a[2], hex)?),
+        ("coalesce", n) if n >= 2 => format!("coalesce({})", a[1..].iter().map(|x| ex_render(x, hex)).collect::<Option<Vec<_>>>()?.join(", ")),
         ("::x", 2) => format!("::({})", ex_render(&a[1], hex)?),
         ("x::", 2) => format!("({})::", ex_render(&a[1], hex)?),
         ("not", 2) => format!("~({})", ex_render(&a[1], hex)?),
+        ("x-", 2) => format!("({})-", ex_render(&a[1], hex)?),
+        ("x+", 2) => format!("({})+", ex_render(&a[1], hex)?),
+        ("x..", 2) => format!("(({})..)", ex_render(&a[1], hex)?),
+        ("..x", 2) => format!("(..({}))", ex_render(&a[1], hex)?),
+        ("f", 3) => { let name = a[1].as_str()?; if !UNARY_FNS.contains(&name) { return None; } format!("{name}({})", ex_render(&a[2], hex)?) }
+        ("fd", 4) => { let name = a[1].as_str()?; if !DEPTH_FNS.contains(&name) { return None; } let d: u64 = a[3].as_str()?.parse().ok()?; format!("{name}({}, {d})", ex_render(&a[2], hex)?) }
         _ => return None,
     })
 }
+fn ex_children(e: &Value) -> &[Value] {
+    match e.as_array() { None => &[], Some(a) => match a[0].as_str().unwrap() { "c" => &[], "f" => &a[2..3], "fd" => &a[2..3], _ => &a[1..] } }
+}
 fn ex_refs(e: &Value, out: &mut BTreeSet<usize>) {
-    if let Some(a) = e.as_array() {
-        if a[0] == "c" { out.insert(a[1].as_u64().unwrap() as usize); } else { for x in &a[1..] { ex_refs(x, out); } }
+    if let Some(a) = e.as_array() { if a[0] == "c" { out.insert(a[1].as_u64().unwrap() as usize); } }
+    for x in ex_children(e) { ex_refs(x, out); }
+}
+/// sum of the exact-generation depths (parents / children / first_parent with a depth): the engine refuses a lower
+/// generation bound >= 2^32 with an error instead of returning the (empty) set; the optimizer adds nested depths up
+fn ex_at_depth_sum(e: &Value) -> u128 {
+    let at = |name: &str| ["parents", "children", "first_parent"].contains(&name);
+    let own = match e.as_array() {
+        Some(a) if a[0] == "fd" && at(a[1].as_str().unwrap()) => a[3].as_str().unwrap().parse::<u64>().unwrap() as u128,
+        Some(a) if (a[0] == "f" && at(a[1].as_str().unwrap())) || a[0] == "x-" || a[0] == "x+" => 1,
+        _ => 0,
+    };
+    own + ex_children(e).iter().map(ex_at_depth_sum).sum::<u128>()
+}
+struct Sem<'a> { parents: &'a [Vec<usize>], r: &'a [Vec<bool>], vis: &'a BTreeSet<usize>, view_heads: &'a BTreeSet<usize> }
+type NSet = BTreeSet<usize>;
+impl Sem<'_> {
+    fn parents_of(&self, x: &NSet) -> NSet { x.iter().flat_map(|c| self.parents[*c].iter().copied()).collect() }
+    fn first_parents_of(&self, x: &NSet) -> NSet { x.iter().filter_map(|c| self.parents[*c].first().copied()).collect() }
+    /// children within the visible-or-referenced universe
+    fn children_of(&self, x: &NSet) -> NSet { self.vis.iter().copied().filter(|c| self.parents[*c].iter().any(|p| x.contains(p))).collect() }
+    fn desc_of(&self, x: &NSet) -> NSet { self.vis.iter().copied().filter(|d| x.iter().any(|s| self.r[*d][*s])).collect() }
+    fn roots_of(&self, x: &NSet) -> NSet { x.iter().copied().filter(|c| !x.iter().any(|o| o != c && self.r[*c][*o])).collect() }
+    /// the sets at generation 0, 1, 2, .. under `step`, up to `depth` levels (levels are empty beyond the graph size)
+    fn levels(&self, x: NSet, depth: u64, step: impl Fn(&NSet) -> NSet) -> Vec<NSet> {
+        let mut out = vec![];
+        let mut cur = x;
+        let mut k = 0u64;
+        while k < depth && k <= self.parents.len() as u64 + 1 { out.push(cur.clone()); cur = step(&cur); k += 1; }
+        // `cur` is now the level `depth` itself if depth was reached, else empty territory
+        if k == depth { out.push(cur); } else { out.push(NSet::new()); }
+        out
+    }
+    /// (union of levels < depth, level == depth)
+    fn walk(&self, x: NSet, depth: u64, step: impl Fn(&NSet) -> NSet) -> (NSet, NSet) {
+        let mut lv = self.levels(x, depth, step);
+        let at = lv.pop().unwrap();
+        (lv.into_iter().flatten().collect(), at)
+    }
+    fn eval(&self, e: &Value) -> NSet {
+        if let Some(s) = e.as_str() {
+            return match s {
+                "all" | "::" => self.vis.clone(),
+                ".." => self.vis.iter().copied().filter(|c| *c != 0).collect(),
+                "root" => [0].into_iter().collect(),
+                "vheads" => self.view_heads.clone(),
+                "merges" => self.vis.iter().copied().filter(|c| self.parents[*c].len() > 1).collect(),
+                _ => NSet::new(),
+            };
+        }
+        let a = e.as_array().unwrap();
+        let op = a[0].as_str().unwrap();
+        let full = u64::MAX;
+        match op {
+            "c" => [a[1].as_u64().unwrap() as usize].into_iter().collect(),
+            "|" => self.eval(&a[1]).union(&self.eval(&a[2])).copied().collect(),
+            "&" => self.eval(&a[1]).intersection(&self.eval(&a[2])).copied().collect(),
+            "~" => self.eval(&a[1]).difference(&self.eval(&a[2])).copied().collect(),
+            // x..y: ancestors of y that are not ancestors of x
+            ".." => anc_of_set(self.r, &self.eval(&a[2])).difference(&anc_of_set(self.r, &self.eval(&a[1]))).copied().collect(),
+            // x::y: descendants of x that are ancestors of y
+            "::" => { let (x, y) = (self.eval(&a[1]), self.eval(&a[2])); anc_of_set(self.r, &y).into_iter().filter(|c| x.iter().any(|s| self.r[*c][*s])).collect() }
+            "reachable" => {
+                // undirected reachability inside the domain
+                let (src, dom) = (self.eval(&a[1]), self.eval(&a[2]));
+                let mut seen: NSet = src.intersection(&dom).copied().collect();
+                let mut st: Vec<usize> = seen.iter().copied().collect();
+                while let Some(c) = st.pop() {
+                    for o in &dom { if !seen.contains(o) && (self.parents[c].contains(o) || self.parents[*o].contains(&c)) { seen.insert(*o); st.push(*o); } }
+                }
+                seen
+            }
+            "coalesce" => a[1..].iter().map(|x| self.eval(x)).find(|s| !s.is_empty()).unwrap_or_default(),
+            "::x" => anc_of_set(self.r, &self.eval(&a[1])),
+            "x::" => self.desc_of(&self.eval(&a[1])),
+            "not" => self.vis.difference(&self.eval(&a[1])).copied().collect(),
+            "x-" => self.parents_of(&self.eval(&a[1])),
+            "x+" => self.children_of(&self.eval(&a[1])),
+            "x.." => self.vis.difference(&anc_of_set(self.r, &self.eval(&a[1]))).copied().collect(),
+            "..x" => anc_of_set(self.r, &self.eval(&a[1])).into_iter().filter(|c| *c != 0).collect(),
+            _ => {
+                let name = a[1].as_str().unwrap();
+                let x = self.eval(&a[2]);
+                let depth: Option<u64> = if op == "fd" { Some(a[3].as_str().unwrap().parse().unwrap()) } else { None };
+                match name {
+                    "heads" => naive_heads(self.r, &x),
+                    "roots" => self.roots_of(&x),
+                    "connected" => anc_of_set(self.r, &x).into_iter().filter(|c| x.iter().any(|s| self.r[*c][*s])).collect(),
+                    // heads(::x1 & ::x2 & ..)
+                    "fork_point" => if x.is_empty() { x } else { naive_heads(self.r, &(0..self.parents.len()).filter(|c| x.iter().all(|m| self.r[*m][*c])).collect()) },
+                    // roots(x1:: & x2:: & ..)
+                    "merge_point" => if x.is_empty() { x } else { self.roots_of(&self.vis.iter().copied().filter(|c| x.iter().all(|m| self.r[*c][*m])).collect()) },
+                    "present" => x,
+                    "parents" => self.walk(x, depth.unwrap_or(1), |s| self.parents_of(s)).1,
+                    "children" => self.walk(x, depth.unwrap_or(1), |s| self.children_of(s)).1,
+                    "first_parent" => self.walk(x, depth.unwrap_or(1), |s| self.first_parents_of(s)).1,
+                    "ancestors" => self.walk(x, depth.unwrap_or(full), |s| self.parents_of(s)).0,
+                    "descendants" => self.walk(x, depth.unwrap_or(full), |s| self.children_of(s)).0,
+                    _ => self.walk(x, depth.unwrap_or(full), |s| self.first_parents_of(s)).0,
+                }
+            }
+        }
     }
 }
-/// the set the expression denotes; `vis` = ancestors of (visible heads + every commit the expression mentions)
-fn ex_eval(e: &Value, r: &[Vec<bool>], vis: &BTreeSet<usize>) -> BTreeSet<usize> {
-    if let Some(s) = e.as_str() { return if s == "all" { vis.clone() } else { BTreeSet::new() }; }
-    let a = e.as_array().unwrap();
-    let op = a[0].as_str().unwrap();
-    match op {
-        "c" => [a[1].as_u64().unwrap() as usize].into_iter().collect(),
-        "|" => ex_eval(&a[1], r, vis).union(&ex_eval(&a[2], r, vis)).copied().collect(),
-        "&" => ex_eval(&a[1], r, vis).intersection(&ex_eval(&a[2], r, vis)).copied().collect(),
-        "~" => ex_eval(&a[1], r, vis).difference(&ex_eval(&a[2], r, vis)).copied().collect(),
-        "::x" => anc_of_set(r, &ex_eval(&a[1], r, vis)),
-        "x::" => { let x = ex_eval(&a[1], r, vis); vis.iter().copied().filter(|d| x.iter().any(|s| r[*d][*s])).collect() }
-        _ => vis.difference(&ex_eval(&a[1], r, vis)).copied().collect(),
-    }
-}
-fn ex_random(rng: &mut Rng, n: usize, depth: usize) -> Value {
+fn ex_random(rng: &mut Rng, n: usize, hidden: &[usize], depth: usize) -> Value {
     if depth == 0 || rng.below(5) == 0 {
-        return match rng.below(8) { 0 => json!("all"), 1 => json!("none"), _ => json!(["c", rng.below(n as u64)]) };
+        return match rng.below(16) {
+            0 => json!("all"), 1 => json!("none"), 2 => json!("root"), 3 => json!("vheads"), 4 => json!("merges"), 5 => json!(if rng.below(2) == 0 { "::" } else { ".." }),
+            6..=8 if !hidden.is_empty() => json!(["c", hidden[rng.below(hidden.len() as u64) as usize]]),
+            _ => json!(["c", rng.below(n as u64)]),
+        };
     }
-    match rng.below(9) {
-        0 | 1 => json!(["|", ex_random(rng, n, depth - 1), ex_random(rng, n, depth - 1)]),
-        2 | 3 => json!(["&", ex_random(rng, n, depth - 1), ex_random(rng, n, depth - 1)]),
-        4 | 5 => json!(["~", ex_random(rng, n, depth - 1), ex_random(rng, n, depth - 1)]),
-        6 => json!(["::x", ex_random(rng, n, depth - 1)]),
-        7 => json!(["x::", ex_random(rng, n, depth - 1)]),
-        _ => json!(["not", ex_random(rng, n, depth - 1)]),
+    let sub = |rng: &mut Rng| ex_random(rng, n, hidden, depth - 1);
+    match rng.below(24) {
+        0 | 1 => json!(["|", sub(rng), sub(rng)]),
+        2 | 3 => json!(["&", sub(rng), sub(rng)]),
+        4 | 5 => json!(["~", sub(rng), sub(rng)]),
+        6 => json!(["::x", sub(rng)]),
+        7 => json!(["x::", sub(rng)]),
+        8 => json!(["not", sub(rng)]),
+        9 => json!(["x-", sub(rng)]),
+        10 => json!(["x+", sub(rng)]),
+        11 => json!([if rng.below(2) == 0 { "x.." } else { "..x" }, sub(rng)]),
+        12 | 13 => json!(["..", sub(rng), sub(rng)]),
+        14 | 15 => json!(["::", sub(rng), sub(rng)]),
+        16 => json!(["reachable", sub(rng), sub(rng)]),
+        17 => if rng.below(2) == 0 { json!(["coalesce", sub(rng), sub(rng)]) } else { json!(["coalesce", sub(rng), sub(rng), sub(rng)]) },
+        18..=20 => json!(["f", UNARY_FNS[rng.below(UNARY_FNS.len() as u64) as usize], sub(rng)]),
+        _ => json!(["fd", DEPTH_FNS[rng.below(DEPTH_FNS.len() as u64) as usize], sub(rng), DEPTHS[rng.below(DEPTHS.len() as u64) as usize].to_string()]),
     }
 }
 fn parse_revset(text: &str) -> Arc<UserRevsetExpression> {
@@ -574,14 +728,14 @@ fn parse_revset(text: &str) -> Arc<UserRevsetExpression> {
     };
     revset::parse(&mut RevsetDiagnostics::new(), text, &context).unwrap()
 }
-fn eval_revset(repo: &dyn Repo, text: &str, optimized: bool) -> Vec<CommitId> {
+fn eval_revset(repo: &dyn Repo, text: &str, optimized: bool) -> Result<Vec<CommitId>, String> {
     let expression = parse_revset(text);
     let resolver = SymbolResolver::new(repo, &([] as [&Box<dyn SymbolResolverExtension>; 0]));
     let resolved = expression.resolve_user_expression(repo, &resolver).unwrap();
-    let rs = if optimized { resolved.evaluate(repo).unwrap() } else { resolved.evaluate_unoptimized(repo).unwrap() };
-    rs.stream().map(Result::unwrap).collect::<Vec<_>>().block_on()
+    let rs = if optimized { resolved.evaluate(repo) } else { resolved.evaluate_unoptimized(repo) }.map_err(|e| format!("{e}"))?;
+    rs.stream().map(|r| r.map_err(|e| format!("{e}"))).collect::<Vec<_>>().block_on().into_iter().collect()
 }
-struct C19Repo { b: Built, repo: Arc<ReadonlyRepo>, r: Vec<Vec<bool>>, hex: Vec<String>, by_id: HashMap<CommitId, usize>, heads: BTreeSet<usize> }
+struct C19Repo { b: Built, repo: Arc<ReadonlyRepo>, parents: Vec<Vec<usize>>, r: Vec<Vec<bool>>, hex: Vec<String>, by_id: HashMap<CommitId, usize>, heads: BTreeSet<usize> }
 /// `hidden`: nodes whose head is removed in a last transaction (they, and what only they kept visible, become hidden)
 fn c19_setup(h: &Hist, hidden: &[usize]) -> C19Repo {
     let b = build(h);
@@ -597,7 +751,7 @@ fn c19_setup(h: &Hist, hidden: &[usize]) -> C19Repo {
     // the visible heads are part of the state the expression is evaluated in (read from the view, not from the index)
     let heads = repo.view().heads().iter().map(|id| by_id[id]).collect();
     let r = reach(&h.parents);
-    C19Repo { b, repo, r, hex, by_id, heads }
+    C19Repo { b, repo, parents: h.parents.clone(), r, hex, by_id, heads }
 }
 fn c19_eval_one(c: &C19Repo, e: &Value) -> Option<Value> {
     guarded("parsing, resolving and evaluating the revset", || {
@@ -605,14 +759,20 @@ fn c19_eval_one(c: &C19Repo, e: &Value) -> Option<Value> {
         let mut roots = c.heads.clone();
         ex_refs(e, &mut roots);
         let vis = anc_of_set(&c.r, &roots);
-        let exp: Vec<usize> = ex_eval(e, &c.r, &vis).into_iter().rev().collect();
+        let sem = Sem { parents: &c.parents, r: &c.r, vis: &vis, view_heads: &c.heads };
+        let exp: Vec<usize> = sem.eval(e).into_iter().rev().collect();
+        let may_refuse = ex_at_depth_sum(e) >= 1u128 << 32;
         for optimized in [true, false] {
-            let got = eval_revset(c.repo.as_ref(), &text, optimized);
+            let short_text = || ex_render(e, &(0..c.hex.len()).map(|i| format!("c{i}")).collect::<Vec<_>>()).unwrap();
+            let got = match eval_revset(c.repo.as_ref(), &text, optimized) {
+                Ok(got) => got,
+                Err(err) if may_refuse && err.contains("too large") => continue,
+                Err(err) => return Some(json!({"observed": format!("{} evaluation of `{}` fails: {err}", if optimized { "optimized" } else { "unoptimized" }, short_text()), "required": format!("{exp:?}: the denoted set")})),
+            };
             let got_nodes: Vec<usize> = got.iter().map(|id| c.by_id.get(id).copied().unwrap_or(usize::MAX)).collect();
             if got_nodes != exp {
-                let short_text = ex_render(e, &(0..c.hex.len()).map(|i| format!("c{i}")).collect::<Vec<_>>()).unwrap();
-                return Some(json!({"observed": format!("{} evaluation of `{short_text}` with visible heads {:?} yields nodes {got_nodes:?}", if optimized { "optimized" } else { "unoptimized" }, c.heads),
-                    "required": format!("{exp:?}: the denoted set, newest to oldest in index (= creation) order, no duplicates")}));
+                return Some(json!({"observed": format!("{} evaluation of `{}` with visible heads {:?} yields nodes {got_nodes:?}", if optimized { "optimized" } else { "unoptimized" }, short_text(), c.heads),
+                    "required": format!("{exp:?}: the denoted set (docs/revsets.md, over the ancestors of the visible heads and of every commit mentioned), newest to oldest in index (= creation) order, no duplicates")}));
             }
         }
         None
@@ -634,22 +794,45 @@ fn c19_run(func: &str, replay: Option<Value>, seed: u64) -> Value {
         return match c19_check(&h, &hidden, &[e.clone()]) { Some((_, r)) => hit(inp, r, name), None => none("replayed input satisfies the C19 executable contract") };
     }
     let input = |h: &Hist, hidden: &[usize], e: &Value| { let mut v = h.to_json(); v["kind"] = json!("C19"); v["hidden"] = json!(hidden); v["expr"] = e.clone(); v };
-    // exhaustive: every DAG with <= 4 non-root commits, every expression with at most one operator over the atoms
-    // (+ every unary operator applied to a binary one for <= 3 non-root commits)
+    // exhaustive, on every DAG with <= 4 non-root commits (k = number of non-root commits):
+    //  all k : atoms; every unary operator / function over every atom; | & ~ over the commit atoms and all()
+    //  k <= 3: | & ~ over all atoms; x..y x::y reachable() coalesce() over all pairs of atoms; every depth function x every
+    //          boundary depth over the commit atoms and all(); with each childless commit hidden in turn: atoms, unary,
+    //          x..y x::y reachable() coalesce(), depth functions at depth 1 and 2^32
+    //  k <= 2: every unary operator over every binary expression of commit atoms and all()
+    let unary_exprs = |a: &Value| -> Vec<Value> {
+        let mut v: Vec<Value> = ["::x", "x::", "not", "x-", "x+", "x..", "..x"].iter().map(|op| json!([op, a])).collect();
+        v.extend(UNARY_FNS.iter().map(|f| json!(["f", f, a])));
+        v
+    };
     let mut cnt = 0;
     for k in 0..=4 { for p in all_dags(k) {
         let h = Hist { parents: p.clone(), tx: if k == 0 { vec![] } else if k >= 3 { vec![k - 1, 1] } else { vec![k] }, fork: None, reload: false, salt: 0 };
         let n = h.n();
-        let mut atoms: Vec<Value> = vec![json!("all"), json!("none")];
-        for i in 0..n { atoms.push(json!(["c", i])); }
-        let mut exprs = atoms.clone();
-        let mut bins = vec![];
-        for a in &atoms { for op in ["::x", "x::", "not"] { exprs.push(json!([op, a])); } }
-        for a in &atoms { for b2 in &atoms { for op in ["|", "&", "~"] { bins.push(json!([op, a, b2])); } } }
-        exprs.extend(bins.iter().cloned());
-        if k <= 3 { for b2 in &bins { for op in ["::x", "x::", "not"] { exprs.push(json!([op, b2])); } } }
-        cnt += exprs.len();
-        if let Some((e, r)) = c19_check(&h, &[], &exprs) { return hit(input(&h, &[], &e), r, name); }
+        let commit_atoms: Vec<Value> = (0..n).map(|i| json!(["c", i])).collect();
+        let mut core = commit_atoms.clone(); core.push(json!("all"));
+        let mut atoms = core.clone();
+        for s in ["none", "root", "vheads", "merges", "::", ".."] { atoms.push(json!(s)); }
+        let mut variants: Vec<Vec<usize>> = vec![vec![]];
+        if k >= 1 && k <= 3 { for l in 1..n { if !p.iter().any(|ps| ps.contains(&l)) { variants.push(vec![l]); } } }
+        for hidden in variants {
+            let plain = hidden.is_empty();
+            let mut exprs = atoms.clone();
+            for a in &atoms { exprs.extend(unary_exprs(a)); }
+            if plain {
+                let bin_atoms = if k <= 3 { &atoms } else { &core };
+                for a in bin_atoms { for b2 in bin_atoms { for op in ["|", "&", "~"] { exprs.push(json!([op, a, b2])); } } }
+            }
+            if k <= 3 {
+                for a in &atoms { for b2 in &atoms { for op in ["..", "::", "reachable", "coalesce"] { exprs.push(json!([op, a, b2])); } } }
+                for a in &core { for f in DEPTH_FNS { for d in DEPTHS { if plain || d == 1 || d == 1 << 32 { exprs.push(json!(["fd", f, a, d.to_string()])); } } } }
+            }
+            if k <= 2 && plain {
+                for a in &core { for b2 in &core { for op in ["|", "&", "~", "..", "::", "reachable", "coalesce"] { exprs.extend(unary_exprs(&json!([op, a, b2]))); } } }
+            }
+            cnt += exprs.len();
+            if let Some((e, r)) = c19_check(&h, &hidden, &exprs) { return hit(input(&h, &hidden, &e), r, name); }
+        }
     } }
     let mut rng = Rng::new(seed ^ 0x19);
     let t0 = std::time::Instant::now();
@@ -658,14 +841,148 @@ fn c19_run(func: &str, replay: Option<Value>, seed: u64) -> Value {
     while graphs < budget(200) && t0.elapsed().as_secs_f64() < 90.0 * budget(100) as f64 / 100.0 {
         let h = random_hist(&mut rng, 10, false);
         let n = h.n();
-        // hide some childless commits
+        // hide some childless commits (what only they kept visible becomes hidden as well)
         let mut hidden = vec![];
-        if rng.below(2) == 0 { for i in 1..n { if !h.parents.iter().any(|ps| ps.contains(&i)) && rng.below(2) == 0 { hidden.push(i); } } }
-        let exprs: Vec<Value> = (0..25).map(|_| { let d = 1 + rng.below(4) as usize; ex_random(&mut rng, n, d) }).collect();
+        if rng.below(3) != 0 { for i in 1..n { if !h.parents.iter().any(|ps| ps.contains(&i)) && rng.below(2) == 0 { hidden.push(i); } } }
+        let r = reach(&h.parents);
+        let mut vheads: BTreeSet<usize> = (1..n).filter(|i| !h.parents.iter().any(|ps| ps.contains(i)) && !hidden.contains(i)).collect();
+        if vheads.is_empty() { vheads.insert(0); }
+        let visible = anc_of_set(&r, &vheads);
+        let all_hidden: Vec<usize> = (0..n).filter(|i| !visible.contains(i)).collect();
+        let exprs: Vec<Value> = (0..25).map(|_| { let d = 1 + rng.below(4) as usize; ex_random(&mut rng, n, &all_hidden, d) }).collect();
         graphs += 1; rnd += exprs.len();
         if let Some((e, r)) = c19_check(&h, &hidden, &exprs) { return hit(input(&h, &hidden, &e), r, name); }
     }
-    none(&format!("scope exhausted: {cnt} evaluations = every DAG with <= 4 non-root commits x every expression with <= 1 operator of | & ~ ::x x:: ~x over all() none() and single commits (and unary-of-binary for <= 3 commits); then {rnd} seeded random expressions of depth <= 4 on {graphs} random histories (<= 10 commits, stacked index segments, hidden commits), optimized and unoptimized evaluation compared with the naive set and with descending creation order, seed {seed}"))
+    none(&format!("scope exhausted: {cnt} exhaustive evaluations on every DAG with <= 4 non-root commits: atoms (all() none() root() visible_heads() merges() :: .. single commits), every unary operator/function (::x x:: ~x x- x+ x.. ..x heads roots connected fork_point merge_point present parents children ancestors descendants first_parent first_ancestors) over every atom, | & ~ over pairs; for <= 3 commits also x..y x::y reachable() coalesce() over all pairs, every depth function at the depths 0..4, 2^31-1, 2^31, 2^32-1, 2^32, 2^32+2, 2^63, u64::MAX-1, and atoms / unary / x..y x::y reachable coalesce / depth 1 and 2^32 again with each childless commit hidden; for <= 2 commits unary-of-binary; then {rnd} seeded random expressions of depth <= 4 over all of these on {graphs} random histories (<= 10 commits, stacked index segments, hidden commits referenced by id); optimized and unoptimized evaluation compared with the naive set of docs/revsets.md and with descending creation order (an exact depth >= 2^32 may be refused with 'too large'), seed {seed}"))
+}
+
+// ---------------------------------------------------------------------------------------------------------------------
+// C18 / C20 on change ids and generation numbers: several commits per change id (divergent and hidden ones)
+// ---------------------------------------------------------------------------------------------------------------------
+/// input: history + "change" (change[i] = j: node i carries node j's change id) + "hidden" (heads removed in a last
+/// transaction) + "within" (disambiguation set). `part`: "index" (C18: generation numbers, stats, change id -> commits)
+/// or "prefix" (C20: shortest change-id prefixes and their resolution)
+fn chg_check(h: &Hist, change: &[usize], hidden: &[usize], within: &[usize], part: &str) -> Option<Value> {
+    use jj_lib::index::ResolvedChangeState;
+    guarded("change-id / generation queries", || {
+        let b = build_with_changes(h, change);
+        let n = h.n();
+        let mut repo = b.repo.clone();
+        if !hidden.is_empty() {
+            let mut tx = repo.start_transaction();
+            for x in hidden { tx.repo_mut().remove_head(b.commits[*x].id()); }
+            repo = tx.commit("hide").block_on().unwrap();
+        }
+        let ids: Vec<CommitId> = b.commits.iter().map(|c| c.id().clone()).collect();
+        let by_id: HashMap<CommitId, usize> = ids.iter().cloned().enumerate().map(|(i, c)| (c, i)).collect();
+        let r = reach(&h.parents);
+        // change groups from OUR assignment (node 0 = root keeps its own); a cross-check that the builder did what we asked
+        let group: Vec<usize> = (0..n).map(|i| { let mut j = i; while let Some(k) = change.get(j).copied().filter(|k| *k < j && *k > 0) { j = k; } j }).collect();
+        for i in 0..n { if (b.commits[i].change_id() == b.commits[group[i]].change_id()) != true { return Some(json!({"observed": "harness: change id assignment not applied", "required": "-"})); } }
+        let reps: Vec<usize> = (0..n).filter(|i| group[*i] == *i).collect();
+        let chex: Vec<String> = reps.iter().map(|g| b.commits[*g].change_id().hex()).collect();
+        let mut repos = vec![("in-memory", repo.clone())];
+        if h.reload { repos.push(("reloaded from disk", reload(&b))); }
+        for (label, rp) in &repos {
+            let heads: BTreeSet<usize> = rp.view().heads().iter().map(|id| by_id[id]).collect();
+            let visible = anc_of_set(&r, &heads);
+            // required answer for a change id: all commits carrying it, each once, flagged visible / hidden
+            let check_targets = |g: usize, t: &jj_lib::index::ResolvedChangeTargets, what: &str| -> Option<Value> {
+                let members: BTreeSet<usize> = (0..n).filter(|i| group[*i] == g).collect();
+                let got: Vec<(usize, bool)> = t.targets.iter().map(|(id, st)| (by_id.get(id).copied().unwrap_or(usize::MAX), *st == ResolvedChangeState::Visible)).collect();
+                let got_set: BTreeSet<usize> = got.iter().map(|x| x.0).collect();
+                let ok = got_set == members && got_set.len() == got.len() && got.iter().all(|(i, v)| visible.contains(i) == *v);
+                if ok { None } else { Some(json!({"observed": format!("{what} == {got:?} as (node, visible) ({label}; visible heads {heads:?})"), "required": format!("exactly the commits {members:?} carrying that change id, each once, flagged visible iff reachable from the visible heads {:?}", members.iter().filter(|m| visible.contains(m)).collect::<Vec<_>>())})) }
+            };
+            if part == "index" {
+                let di: &jj_lib::default_index::DefaultReadonlyIndex = rp.readonly_index().downcast_ref().unwrap();
+                let mut gen_no = vec![0u32; n];
+                for i in 1..n { gen_no[i] = 1 + h.parents[i].iter().map(|p| gen_no[*p]).max().unwrap(); }
+                for i in 0..n {
+                    let got = di.generation_number(&ids[i]);
+                    if got != Some(gen_no[i]) { return Some(json!({"observed": format!("generation_number(node {i}) == {got:?} ({label})"), "required": format!("Some({}): one more than the largest generation number among the parents (root: 0)", gen_no[i])})); }
+                }
+                let st = di.stats();
+                let exp = (n as u32, h.parents.iter().filter(|p| p.len() > 1).count() as u32, *gen_no.iter().max().unwrap(), (0..n).filter(|i| !h.parents.iter().any(|ps| ps.contains(i))).count() as u32, reps.len() as u32);
+                let got = (st.num_commits, st.num_merges, st.max_generation_number, st.num_heads, st.num_changes);
+                if got != exp { return Some(json!({"observed": format!("stats (num_commits, num_merges, max_generation_number, num_heads, num_changes) == {got:?} ({label})"), "required": format!("{exp:?} counted on the recorded graph")})); }
+                // the repo's change-id index caches which positions it has already classified as reachable, so the order of
+                // the queries matters: by newest member, newest first, on the in-memory repo; oldest first on the reloaded one
+                let mut order: Vec<(usize, usize)> = reps.iter().copied().enumerate().collect();
+                if *label == "in-memory" { order.sort_by_key(|(_, g)| std::cmp::Reverse((0..n).filter(|i| group[*i] == *g).max().unwrap())); }
+                for (k, g) in order.iter().map(|(k, g)| (*k, g)) {
+                    let t = rp.resolve_change_id(b.commits[*g].change_id()).block_on().unwrap();
+                    let Some(t) = t else { return Some(json!({"observed": format!("resolve_change_id(change of node {g}) == None ({label})"), "required": "the commits carrying that change id"})) };
+                    if let Some(v) = check_targets(*g, &t, &format!("resolve_change_id(change of node {g} = {}..)", &chex[k][..8])) { return Some(v); }
+                }
+            } else {
+                let naive_len = |k: usize, among: &[usize]| -> usize { among.iter().filter(|j| **j != k).map(|j| common_hex(&chex[k], &chex[*j]) + 1).max().unwrap_or(0) };
+                let all: Vec<usize> = (0..reps.len()).collect();
+                let resolve_exp = |p: &str, among: &[usize]| -> Result<Option<usize>, ()> { let m: Vec<usize> = among.iter().copied().filter(|k| chex[*k].starts_with(p)).collect(); match m.len() { 0 => Ok(None), 1 => Ok(Some(m[0])), _ => Err(()) } };
+                let mut ctx = IdPrefixContext::new(Arc::new(RevsetExtensions::default()));
+                if !within.is_empty() { ctx = ctx.disambiguate_within(parse_revset(&within.iter().map(|i| ids[*i].hex()).collect::<Vec<_>>().join(" | "))); }
+                let pi = ctx.populate(rp.as_ref()).unwrap();
+                let within_changes: Vec<usize> = (0..reps.len()).filter(|k| within.iter().any(|w| group[*w] == reps[*k])).collect();
+                for k in 0..reps.len() {
+                    let cid = b.commits[reps[k]].change_id();
+                    let got = rp.shortest_unique_change_id_prefix_len(cid).block_on().unwrap();
+                    let exp = naive_len(k, &all);
+                    if got != exp { return Some(json!({"observed": format!("shortest_unique_change_id_prefix_len(change of node {} = {}..) == {got} ({label})", reps[k], &chex[k][..12]), "required": format!("{exp}: one more than the longest hex prefix shared with another change id in the index (hidden ones included)")})); }
+                    for len in [got.saturating_sub(1), got, (got + 1).min(chex[k].len())] {
+                        let p = &chex[k][..len];
+                        let Some(px) = HexPrefix::try_from_hex(p) else { continue };
+                        let res = rp.resolve_change_id_prefix(&px).block_on().unwrap();
+                        let e = resolve_exp(p, &all);
+                        let shown = match &res { PrefixResolution::NoMatch => "NoMatch".to_string(), PrefixResolution::AmbiguousMatch => "AmbiguousMatch".to_string(), PrefixResolution::SingleMatch(t) => format!("SingleMatch({:?})", t.targets.iter().map(|(id, _)| by_id.get(id).copied().unwrap_or(usize::MAX)).collect::<Vec<_>>()) };
+                        let bad = |why: &str| Some(json!({"observed": format!("resolve_change_id_prefix(\"{p}\") == {shown} ({label}; change of node {}, reported shortest length {got})", reps[k]), "required": why}));
+                        match (&res, &e) {
+                            (PrefixResolution::NoMatch, Ok(None)) | (PrefixResolution::AmbiguousMatch, Err(())) => {}
+                            (PrefixResolution::SingleMatch(t), Ok(Some(m))) => if let Some(v) = check_targets(reps[*m], t, &format!("resolve_change_id_prefix(\"{p}\")")) { return Some(v); },
+                            (_, Ok(None)) => return bad("NoMatch"),
+                            (_, Err(())) => return bad("AmbiguousMatch: the prefix matches several change ids"),
+                            (_, Ok(Some(m))) => return bad(&format!("SingleMatch(the commits of the change of node {})", reps[*m])),
+                        }
+                    }
+                    // through IdPrefixIndex (with the disambiguation set, if any)
+                    let got2 = pi.shortest_change_prefix_len(rp.as_ref(), cid).block_on().unwrap();
+                    let exp2 = if within_changes.contains(&k) { naive_len(k, &within_changes).max(1) } else { exp };
+                    if got2 != exp2 { return Some(json!({"observed": format!("IdPrefixIndex::shortest_change_prefix_len(change of node {}) == {got2} with disambiguation set {within:?} ({label})", reps[k]), "required": format!("{exp2}: shortest length unique among the change ids of the disambiguation set (at least 1) for its members, among all change ids otherwise")})); }
+                    if got2 > 0 {
+                        let p = &chex[k][..got2];
+                        let res = pi.resolve_change_prefix(rp.as_ref(), &HexPrefix::try_from_hex(p).unwrap()).block_on().unwrap();
+                        let e = match resolve_exp(p, &within_changes) { Ok(None) => resolve_exp(p, &all), x => x };
+                        let okk = match (&res, &e) { (PrefixResolution::SingleMatch(t), Ok(Some(m))) => check_targets(reps[*m], t, &format!("IdPrefixIndex::resolve_change_prefix(\"{p}\")")).is_none(), _ => false };
+                        if !okk || e != Ok(Some(k)) { return Some(json!({"observed": format!("IdPrefixIndex::resolve_change_prefix(\"{p}\") does not give the commits of the change of node {} (set {within:?}, {label})", reps[k]), "required": "the prefix of the reported shortest length resolves to exactly that change"})); }
+                    }
+                }
+            }
+        }
+        None
+    })
+}
+fn chg_valid(h: &Hist, change: &[usize], hidden: &[usize], within: &[usize]) -> bool {
+    let n = h.n();
+    (change.is_empty() || change.len() == n) && change.iter().enumerate().all(|(i, j)| *j <= i) && hidden.iter().chain(within).all(|x| *x < n) && h.fork.is_none()
+}
+fn chg_random(rng: &mut Rng, max_k: usize) -> (Hist, Vec<usize>, Vec<usize>) {
+    let h = random_hist(rng, max_k, false);
+    let n = h.n();
+    // about a third of the commits re-use the change id of an earlier commit (a rewrite kept visible = divergence, or hidden below)
+    let change: Vec<usize> = (0..n).map(|i| if i >= 2 && rng.below(3) == 0 { 1 + rng.below(i as u64 - 1) as usize } else { i }).collect();
+    let mut hidden = vec![];
+    if rng.below(3) != 0 { for i in 1..n { if !h.parents.iter().any(|ps| ps.contains(&i)) && rng.below(2) == 0 { hidden.push(i); } } }
+    (h, change, hidden)
+}
+fn chg_input(kind: &str, h: &Hist, change: &[usize], hidden: &[usize], within: &[usize]) -> Value {
+    let mut v = h.to_json(); v["kind"] = json!(kind); v["change"] = json!(change); v["hidden"] = json!(hidden); v["within"] = json!(within); v
+}
+fn chg_replay(inp: &Value, part: &str) -> Option<Result<Option<Value>, String>> {
+    if inp["kind"] != "C18chg" && inp["kind"] != "C20chg" { return None; }
+    let Some(h) = Hist::from_json(inp) else { return Some(Err("replay input is not a valid history".into())) };
+    let get = |k: &str| -> Vec<usize> { inp.get(k).and_then(|x| serde_json::from_value(x.clone()).ok()).unwrap_or_default() };
+    let (change, hidden, within) = (get("change"), get("hidden"), get("within"));
+    if !chg_valid(&h, &change, &hidden, &within) { return Some(Err("replay input is not a valid change-id history".into())); }
+    Some(Ok(chg_check(&h, &change, &hidden, &within, part)))
 }
 
 // ---------------------------------------------------------------------------------------------------------------------
@@ -752,6 +1069,7 @@ fn c20_hex_check(a: &[u8], b: &[u8]) -> Option<Value> {
 fn c20_run(func: &str, replay: Option<Value>, seed: u64) -> Value {
     let name = if func.is_empty() { "shortest_unique_commit_id_prefix_len" } else { func };
     if let Some(inp) = replay {
+        if let Some(r) = chg_replay(&inp, "prefix") { return match r { Ok(Some(r)) => hit(inp, r, name), Ok(None) => none("replayed input satisfies the C20 executable contract"), Err(e) => none(&e) }; }
         if inp["kind"] == "C20hex" {
             let a: Vec<u8> = serde_json::from_value(inp["a"].clone()).unwrap_or_default();
             let b: Vec<u8> = serde_json::from_value(inp["b"].clone()).unwrap_or_default();
@@ -793,7 +1111,24 @@ fn c20_run(func: &str, replay: Option<Value>, seed: u64) -> Value {
         rnd += 1;
         if let Some(r) = c20_check(&h, &within) { let mut v = h.to_json(); v["kind"] = json!("C20"); v["within"] = json!(within); return hit(v, r, name); }
     }
-    none(&format!("scope exhausted: common_hex_len on all pairs of byte strings of length <= 2 over 9 nibble-sensitive bytes; every commit of {cnt} histories (every DAG with <= 3 non-root commits x transaction splits); {bulk} bulk repositories with 66..2375 commits in stacked index segments (3-5 digit shared prefixes), {rnd} random histories with <= 40 commits, with and without a disambiguation set (IdPrefixContext), length == naive longest-common-prefix + 1 and prefix resolution == naive match count, seed {seed}"))
+    // change ids: shortest unique change-id prefix, prefix resolution to all commits of the change (divergent / hidden)
+    let mut chg = 0;
+    for k in 1..=3 { for p in all_dags(k) {
+        let h = Hist { parents: p.clone(), tx: vec![k], fork: None, reload: k == 3, salt: 0 };
+        let n = h.n();
+        let mut variants: Vec<(Vec<usize>, Vec<usize>)> = vec![(vec![], vec![])];
+        for i in 2..n { let mut c: Vec<usize> = (0..n).collect(); c[i] = 1; variants.push((c.clone(), vec![])); for l in 1..n { if !p.iter().any(|ps| ps.contains(&l)) { variants.push((c.clone(), vec![l])); } } }
+        for (change, hidden) in variants { chg += 1; if let Some(r) = chg_check(&h, &change, &hidden, &[], "prefix") { return hit(chg_input("C20chg", &h, &change, &hidden, &[]), r, name); } }
+    } }
+    let mut chg_rnd = 0;
+    while chg_rnd < budget(120) {
+        let (h, change, hidden) = if chg_rnd % 40 == 39 { let h = bulk_hist(&[400, 150, 60, 20, 5], rng.below(1_000_000)); let n = h.n(); let c = (0..n).map(|i| if i % 7 == 3 { i - 1 } else { i }).collect(); (h, c, vec![n - 1]) } else { chg_random(&mut rng, 30) };
+        let n = h.n();
+        let within: Vec<usize> = if rng.below(2) == 0 { vec![] } else { (0..1 + rng.below(6)).map(|_| rng.below(n as u64) as usize).collect::<BTreeSet<_>>().into_iter().collect() };
+        chg_rnd += 1;
+        if let Some(r) = chg_check(&h, &change, &hidden, &within, "prefix") { return hit(chg_input("C20chg", &h, &change, &hidden, &within), r, name); }
+    }
+    none(&format!("scope exhausted: change ids: shortest_unique_change_id_prefix_len / resolve_change_id_prefix / IdPrefixIndex::{{shortest_change_prefix_len, resolve_change_prefix}} on {chg} exhaustive + {chg_rnd} random histories (shared change ids, hidden commits, disambiguation sets, 3 bulk repositories of 635 commits); common_hex_len on all pairs of byte strings of length <= 2 over 9 nibble-sensitive bytes; every commit of {cnt} histories (every DAG with <= 3 non-root commits x transaction splits); {bulk} bulk repositories with 66..2375 commits in stacked index segments (3-5 digit shared prefixes), {rnd} random histories with <= 40 commits, with and without a disambiguation set (IdPrefixContext), length == naive longest-common-prefix + 1 and prefix resolution == naive match count, seed {seed}"))
 }
 
 // ---------------------------------------------------------------------------------------------------------------------
